@@ -18,6 +18,7 @@ ASSUMPTIONS = ['fragments end with a newline when the separator is empty']
 def explore(ctx, depth):
     import docrun
     import kernpy as kp
+    late_signatures(ctx, depth)
     cases = docrun.make_cases(ctx, 15 if depth == 'quick' else 120, kern_only=True, profiles=('core',), comments=False, max_measures=5, double_bars=True)
     rng = ctx.rng
     docrun.fill_views(ctx, cases, 'kern', docrun.ALLC, '_v')
@@ -44,6 +45,15 @@ def explore(ctx, depth):
                 # fragments as they come from Windows files: CRLF line ends and an empty line at the end of every fragment but the last
                 crlf = [f.replace('\n', '\r\n') + ('\r\n\r\n' if k < len(frags) - 1 else '\r\n') for k, f in enumerate(frags)]
                 variants.append(('', crlf, 'crlf+blank'))
+            if len(cuts) >= 1 and len(cuts) <= 2:
+                # text read from a file saved as "UTF-8 with signature": whatever loads() makes of the joined text, concat makes of the fragments
+                for sep_b, cont_b in (('\n', ['\ufeff' + frags[0]] + frags[1:]), ('', ['\ufeff' + frags[0] + '\n'] + [f + '\n' for f in frags[1:]])):
+                    whole = call(lambda: kp.dumps(kp.loads(sep_b.join(cont_b))[0]))
+                    parts = call(lambda: kp.dumps(kp.concat(cont_b, separator=sep_b)[0]))
+                    ctx.seen({'text': case.text, 'cut_at_lines': cuts, 'separator': sep_b, 'clause': 'byte order mark'}, True)
+                    if whole != parts:
+                        ctx.fail({'text': case.text, 'cut_at_lines': cuts, 'separator': sep_b, 'clause': 'first fragment starts with a byte order mark'},
+                                 'concat of fragments does not have the outcome of loading the joined text', impl=parts, expected=whole)
             for sep, contents, flavour in variants:
                 inp = {'text': case.text, 'cut_at_lines': cuts, 'separator': sep, 'line_ends': flavour}
                 def run():
@@ -118,6 +128,65 @@ def data_lines_of_fragment(case, frag):
     if case._pos >= len(case._lines):
         case._pos = 0
     return out
+
+
+def late_signatures(ctx, depth):
+    """scores in which a kind of signature occurs for the first time after the music has started (and mid-score signature changes in general),
+    cut into fragments at barlines: every pair of bounds of the concatenated document against the model run on the joined text"""
+    import docrun, gen
+    import kernpy as kp
+    rng = ctx.rng
+    docs = [gen.DocGen(rng, profile='free', kern_only=True, max_spines=2, comments=False, max_measures=5).make() for _ in range(6 if depth == 'quick' else 60)]
+    # fixed witnesses: the first meter sign / key signature / time signature of the score in its third measure
+    for late in ('*met(c)', '*k[f#]', '*M3/4', '*clefF4'):
+        rows = [['**kern'], ['*clefG2'] if late != '*clefF4' else ['*staff1'], ['=1'], ['4c'], ['4d'], ['=2'], ['4e'], ['=3'], [late], ['4f'], ['=4'], ['4g'], ['==']]
+        rows.append(['*-'])
+        docs.append({'headers': ['**kern'], 'rows': [], 'text': ''.join('\t'.join(r) + '\n' for r in rows), 'profile': 'late signature'})
+    gen.render_documents(ctx.driver, [d for d in docs if d['rows']])
+    cases = []
+    for d in docs:
+        lines = d['text'].split('\n')[:-1]
+        bars = [i for i, l in enumerate(lines) if c07.is_bar(l)]
+        if not bars:
+            continue
+        cuts = sorted(rng.sample(bars, min(len(bars), rng.randint(1, 3))))
+        bounds = [0] + cuts + [len(lines)]
+        frags = ['\n'.join(lines[a:b]) for a, b in zip(bounds, bounds[1:])]
+        c = docrun.Case({'text': d['text'], 'headers': d['headers'], 'rows': [], 'kind': 'concat of ' + d.get('profile', 'free')})
+        r = call(lambda: kp.concat(frags, separator='\n'))
+        if 'ok' not in r:
+            continue
+        c.doc, c.errors, c.import_result = r['ok'][0], [], {'ok': True}
+        cases.append(c)
+    docrun.raw_range_tie(ctx, cases, what='a pair of bounds exported from a concatenated document differs from the model run on the joined text')
+    # on the fixed witnesses (one spine, nothing outside C08's core but the late signature) the statement itself: every note of an exported pair is
+    # governed by the same clef / key signature / time signature / meter sign as in the full score
+    from . import c08
+    for c in cases:
+        if c.adoc['kind'] != 'concat of late signature':
+            continue
+        full = call(lambda: kp.dumps(c.doc))
+        ft = c08.track(full['ok']) if 'ok' in full else {'ok': False}
+        M = len(c.doc.measure_start_tree_stages)
+        for a in range(1, M + 1):
+            for b in range(a, M + 1):
+                got = call(lambda: kp.dumps(c.doc, from_measure=a, to_measure=b))
+                ctx.seen({'text': c.text, 'from_measure': a, 'to_measure': b, 'clause': 'late signature: same governing signatures'}, True)
+                t = c08.track(got['ok']) if 'ok' in got else {'ok': False, 'why': str(got)}
+                if not t['ok'] or not ft.get('ok'):
+                    ctx.fail({'text': c.text, 'from_measure': a, 'to_measure': b, 'clause': 'late signature: well-formed'},
+                             'a pair exported from the concatenated document is not a well-formed document: ' + str(t.get('why')), impl=got)
+                    continue
+                en, fn = t['notes'], ft['notes']
+                ok = not en
+                for st in range(len(fn) - len(en) + 1):
+                    if en and [(x[0], x[1]) for x in fn[st:st + len(en)]] == [(x[0], x[1]) for x in en] and all(x[2] == y[2] for x, y in zip(fn[st:st + len(en)], en)):
+                        ok = True
+                        break
+                if not ok:
+                    ctx.fail({'text': c.text, 'from_measure': a, 'to_measure': b, 'clause': 'late signature: same governing signatures'},
+                             'a note of an exported pair is not governed by the same clef / key signature / time signature / meter sign as in the full score',
+                             impl=got['ok'], expected=[list(x) for x in fn[:4]])
 
 
 def replay(ctx, payload):
